@@ -8,9 +8,6 @@
 From DustDDS Require Export Base.Machine Disc.PlModel Disc.DiscModel.
 Open Scope Z_scope.
 
-(* run-length notation used by the case printer *)
-Definition rep (b n : Z) : bytes := repeat b (Z.to_nat n).
-
 Definition ti_w0 (u : unit) : wr := w_raw [].
 Definition ti_dec0 : xdec unit := fun _ _ => Err X_NED.
 
